@@ -35,7 +35,11 @@ pub fn gen(seed: u64, tier: Tier, k: u64) -> Value {
                 7 => "loose-concat",
                 _ => "basic",
             };
-            json!({"kind": "container", "how": how, "case": gen_small(&mut rng, tier, pkg, n_extra, 9).to_json()})
+            let mut case = gen_small(&mut rng, tier, pkg, n_extra, 9);
+            if n_extra > 0 && rng.chance(1, 2) {
+                case.id_gap = *rng.pick(&[1u16, 5, 254]);
+            }
+            json!({"kind": "container", "how": how, "case": case.to_json()})
         }
     }
 }
@@ -128,6 +132,7 @@ pub fn run(desc: &Value, ctx: &Ctx) -> CaseOut {
         _ => {
             let cc = ContCase::from_json(&case);
             observe(&cc.dir, &mut out);
+            observe_cont(&cc, &mut out);
             let mut fp = Fp::new();
             fp.s(&out.fp).s(cc.pkg.as_str()).s(cc.content.comp.name()).u(cc.extra.len() as u64);
             out.fp = fp.hex();
